@@ -75,6 +75,7 @@ func runC20(c *Ctx) {
 		"C20.1 the archive writer and reader agree on the member names, every member except the checksum file is registered in the hash list on both sides, and an unexpected member is an error",
 		"C20.2 every registered hash is fed while the member is written and while it is read; the hash list hands out one hash per name (a repeated name continues the same hash)",
 		"C20.3 the reader cannot succeed without the checksum verification having succeeded; the verification rejects a mismatching digest, an unlisted name, and a listed-but-missing file",
+		"C20.5 the metadata document is encoded from and decoded into the same static type (raft.SnapshotMeta): no detour through a generic map or another struct, which would change 64-bit counters or drop fields without the checksum noticing",
 		"C20.4 nothing reaches Raft before verification: Read/Verify succeed only below successful read and gzip conclusion, and raft.Restore is called only by snapshot.Restore, below a successful Read",
 	}
 	r.NotDecided = []string{"byte-exact round trip", "detection at every corruption position (tar/gzip framing is library behaviour)"}
@@ -494,6 +495,7 @@ func runC20(c *Ctx) {
 		r.MissingInstance("C20.4", "<raft.Restore>", "no call to raft.Restore found in the loaded packages")
 	}
 	r.Floor("C20.4", 5)
+	checkMetaTypeAgreement(c)
 }
 
 func boolKeys(m map[string]ssa.Value) map[string]bool {
@@ -502,4 +504,52 @@ func boolKeys(m map[string]ssa.Value) map[string]bool {
 		out[k] = true
 	}
 	return out
+}
+
+// C20.5
+func checkMetaTypeAgreement(c *Ctx) {
+	p, r := c.P, c.R
+	typeOfJSONArg := func(f *ssa.Function, method string) []string {
+		var out []string
+		for _, in := range callsTo(f, func(cm *ssa.CallCommon) bool {
+			g := cm.StaticCallee()
+			if g == nil || g.Pkg == nil || g.Pkg.Pkg.Path() != "encoding/json" {
+				return false
+			}
+			return g.Name() == method || (method == "Decode" && g.Name() == "Unmarshal") || (method == "Encode" && g.Name() == "Marshal")
+		}) {
+			args := in.(ssa.CallInstruction).Common().Args
+			v := args[len(args)-1]
+			if mi, ok := v.(*ssa.MakeInterface); ok {
+				v = mi.X
+			}
+			out = append(out, core.ShortType(v.Type()))
+		}
+		return out
+	}
+	var wf, rf *ssa.Function
+	for _, f := range p.SrcFuncs("snapshot") {
+		switch f.Name() {
+		case "write":
+			wf = f
+		case "read":
+			rf = f
+		}
+	}
+	if wf == nil || rf == nil {
+		r.Unresolve("C20.5", "snapshot.write/read", "not found")
+		return
+	}
+	enc, dec := typeOfJSONArg(wf, "Encode"), typeOfJSONArg(rf, "Decode")
+	ok := len(enc) > 0 && len(dec) > 0
+	for _, t := range append(append([]string{}, enc...), dec...) {
+		if !strings.HasSuffix(t, "raft.SnapshotMeta") {
+			ok = false
+		}
+	}
+	if ok {
+		r.Hold("C20.5", "snapshot/meta.json", p.FuncPos(wf), fmt.Sprintf("encoded from %v, decoded into %v", enc, dec))
+	} else {
+		r.Violate("C20.5", "snapshot/meta.json", p.FuncPos(wf), fmt.Sprintf("the metadata document is encoded from %v and decoded into %v: going through another type (a generic map turns every number into a float64) changes Index/Term/ConfigurationIndex above 2^53 or drops fields, and the checksum is computed over the already altered document, so verification passes and the restored metadata differs from the saved one", enc, dec))
+	}
 }
